@@ -618,6 +618,48 @@ def interchange_session(sid: int, seed: int) -> dict:
     return s.finish(seed + 1)
 
 
+def projection_session(sid: int, seed: int) -> dict:
+    """C12: projections bring together same-variable parts that guards on OTHER variables kept apart while parsing.
+    Each branch is (atom or ==/!= group on V) joined with (a guard on W); the branches are joined by or / and, as text
+    and through the operators; only / exclude / without_extras then drop the guards, and the atom-group tables
+    (EqualityMarkerUnion / InequalityMultiMarker / MarkerExpression |, &) do the merging."""
+    rng = random.Random(seed)
+    s = MSession(sid, seed)
+    strings = list(STRING_VARS)
+    v = rng.choice(strings + strings + ["python_version", "extra"])
+    w = rng.choice([x for x in strings + ["python_version", "extra", "extra"] if x != v])
+    _POOL["atoms"] = None
+    inner, outer = rng.choice([(" and ", " or "), (" and ", " or "), (" or ", " and ")])
+    branches = []
+    for _ in range(rng.choice([2, 2, 3])):
+        part = gen_group(rng, v) if rng.random() < 0.6 else gen_atom(rng, v, reversed_ok=False)
+        guard = gen_atom(rng, w, reversed_ok=False)
+        pair = [part, guard] if rng.random() < 0.7 else [guard, part]
+        branches.append("(" + inner.join(pair) + ")")
+    whole = s.parse(outer.join(branches))
+    regs = [whole] if whole is not None else []
+    if not s.dead and rng.random() < 0.6:
+        parts = [s.parse(b) for b in branches]
+        if None not in parts and not s.dead:
+            acc = parts[0]
+            for q in parts[1:]:
+                acc = s.binop("or" if outer == " or " else "and", acc, q) if acc is not None else None
+            if acc is not None:
+                regs.append(acc)
+    for r in regs:
+        if s.dead:
+            break
+        for op, names in (("only", [v]), ("exclude", [w]), ("only", [w]), ("exclude", [v]), ("only", [v, w])):
+            if s.dead:
+                break
+            pr = s.project(op, r, names)
+            if pr is not None and not s.dead:
+                s.reparse(pr)
+        if "extra" in (v, w) and not s.dead:
+            s.project("without_extras", r, ["extra"])
+    return s.finish(seed + 1)
+
+
 def make_batch(args) -> list[dict]:
     seed, n_random, n_law = args
     out = []
@@ -628,6 +670,8 @@ def make_batch(args) -> list[dict]:
             out.append(interchange_session(0, seed * 1000037 + 700000 + k))
         elif k % 4 == 1:
             out.append(blowup_session(0, seed * 1000039 + 900000 + k))
+        elif k % 4 == 2:
+            out.append(projection_session(0, seed * 1000041 + 1100000 + k))
         else:
             out.append(law_session(0, seed * 1000033 + 500000 + k))
     return out
